@@ -16,7 +16,7 @@ RULE = ("Hypothesis generates a small interacting model (N<=4), an index quadrup
         "the component is non-vanishing (some |value| > 0); distinct by case hash.")
 ASSUMPTIONS = ["chi and G themselves are C02/C01's business; here only storage and the disconnected combination are judged"]
 CONFIG = {
-    "quick": {"flavours": ["real", "complex"], "shards": 8, "examples": 120, "min_nontrivial": 200, "budget_s": 100},
+    "quick": {"flavours": ["real", "complex"], "shards": 8, "examples": 400, "min_nontrivial": 200, "budget_s": 120},
     "thorough": {"flavours": ["real", "complex"], "shards": 16, "examples": 150, "min_nontrivial": 500, "budget_s": 3300},
 }
 REQUIRED_CLASSES = {"quick": ["window=0", "window=1", "window>=2", "distinct-indices", "shrinking-recompute", "growing-recompute"],
